@@ -331,8 +331,24 @@ func useMatrix(ct *contT, X ad.Matrix, full bool, redecode func(m ad.Matrix) ad.
 	r, c := X.Dims()
 	N := func(a, b int) ad.Matrix { return ct.newMat(a, b) }
 	NV := func(n int) ad.Vector { return vt.newVec(n) }
-	H := func(a, b int) ad.Matrix { return helperMat(ct, a, b) }
-	hv := func(n int) ad.Vector { return helperVec(vt, n) }
+	// helper operands (never receivers) are built once per trace
+	hm, hvs := map[[2]int]ad.Matrix{}, map[int]ad.Vector{}
+	H := func(a, b int) ad.Matrix {
+		m, ok := hm[[2]int{a, b}]
+		if !ok {
+			m = helperMat(ct, a, b)
+			hm[[2]int{a, b}] = m
+		}
+		return m
+	}
+	hv := func(n int) ad.Vector {
+		v, ok := hvs[n]
+		if !ok {
+			v = helperVec(vt, n)
+			hvs[n] = v
+		}
+		return v
+	}
 	s := helperScalar(ct.St)
 	type bin struct {
 		name string
@@ -608,8 +624,23 @@ func useVector(ct *contT, X ad.Vector, full bool, redecode func(v ad.Vector) ad.
 	n := X.Dim()
 	NV := func(n int) ad.Vector { return ct.newVec(n) }
 	N := func(a, b int) ad.Matrix { return mt.newMat(a, b) }
-	H := func(a, b int) ad.Matrix { return helperMat(mt, a, b) }
-	hv := func(n int) ad.Vector { return helperVec(ct, n) }
+	hm, hvs := map[[2]int]ad.Matrix{}, map[int]ad.Vector{}
+	H := func(a, b int) ad.Matrix {
+		m, ok := hm[[2]int{a, b}]
+		if !ok {
+			m = helperMat(mt, a, b)
+			hm[[2]int{a, b}] = m
+		}
+		return m
+	}
+	hv := func(n int) ad.Vector {
+		v, ok := hvs[n]
+		if !ok {
+			v = helperVec(ct, n)
+			hvs[n] = v
+		}
+		return v
+	}
 	s := helperScalar(ct.St)
 	type bin struct {
 		name string
